@@ -431,4 +431,220 @@ Section UPD.
       + apply General. intros k0 u0 E0. inversion E0; subst. apply leqb_false. exact Eks.
     - apply General. intros; discriminate.
   Qed.
+
+  (* ---------- batch_insert_at ---------- *)
+  Definition tree_ok (U : list N -> Prop) (fuel : nat) (t : nodeA) : Prop :=
+    forall k d, lookup A fuel t k = Some d -> U k /\ kvalid k /\ (length k < fuel)%nat.
+
+  Lemma good_has_leaf : forall n lh t, good H A n lh t -> exists k d, lookup A n t k = Some d.
+  Proof.
+    induction n as [|n IH]; intros lh t G; destruct t as [|s vh p a|cs]; cbn [good] in G; try contradiction.
+    - exists s, (vh, p, a). cbn. rewrite leqb_refl. reflexivity.
+    - exists s, (vh, p, a). cbn. rewrite leqb_refl. reflexivity.
+    - destruct G as (G1 & G2 & G3). destruct cs as [|c r]; [contradiction|].
+      inversion G2 as [|? ? C _]; subst. destruct C as (_ & C2 & _).
+      destruct (IH _ _ C2) as (k & d & E). exists (c_nib c :: k), d.
+      rewrite lookup_internal, cs_find_head. exact E.
+  Qed.
+
+  Definition old_step (acc : list child) (nr : N * option nodeA) : list child :=
+    match snd nr with None => cs_remove A (fst nr) acc | Some _ => acc end.
+
+  Lemma old_spec : forall f lh rs cs, NoDup (map fst rs) -> ssorted A cs -> Forall (child_ok H A f lh) cs ->
+    let old := fold_left old_step rs cs in
+    ssorted A old /\ Forall (child_ok H A f lh) old /\
+    forall m, cs_find A m old = match nassoc m rs with Some None => None | _ => cs_find A m cs end.
+  Proof.
+    intros f lh rs. induction rs as [|[a r] rs IH]; intros cs ND S F; cbn [fold_left].
+    - repeat split; assumption.
+    - inversion ND as [|? ? Hn ND']; subst. cbn [map fst] in Hn.
+      assert (S' : ssorted A (old_step cs (a, r))) by (unfold old_step; destruct r; cbn [snd fst]; [exact S|apply ssorted_remove; exact S]).
+      assert (F' : Forall (child_ok H A f lh) (old_step cs (a, r))) by (unfold old_step; destruct r; cbn [snd fst]; [exact F|apply Forall_remove; exact F]).
+      destruct (IH _ ND' S' F') as (I1 & I2 & I3). split; [exact I1|]. split; [exact I2|].
+      intro m. rewrite I3. cbn [nassoc]. destruct (a =? m) eqn:E.
+      + apply N.eqb_eq in E. subst a. rewrite (nassoc_none m rs Hn). unfold old_step. cbn [snd fst].
+        destruct r; [reflexivity|]. rewrite cs_find_remove, N.eqb_refl. reflexivity.
+      + assert (E2 : cs_find A m (old_step cs (a, r)) = cs_find A m cs).
+        { unfold old_step. cbn [snd fst]. destruct r; [reflexivity|]. rewrite cs_find_remove, (N.eqb_sym m a), E. reflexivity. }
+        rewrite E2. reflexivity.
+  Qed.
+
+  Lemma final_spec : forall f lh ver (new : list (N * nodeA)) old, NoDup (map fst new) ->
+    (forall n t, In (n, t) new -> n < 16 /\ good H A f (lh_down lh n) t) ->
+    ssorted A old -> Forall (child_ok H A f lh) old ->
+    let final := fold_left (fun acc nt => cs_insert A (mk_child H A lh ver nt) acc) new old in
+    ssorted A final /\ Forall (child_ok H A f lh) final /\ (length old <= length final)%nat /\
+    forall m, cs_find A m final = match nassoc m new with
+                                  | Some t => Some (mk_child H A lh ver (m, t)) | None => cs_find A m old end.
+  Proof.
+    intros f lh ver new. induction new as [|[a t] new IH]; intros old ND Hc S F; cbn [fold_left].
+    - repeat split; try assumption. lia.
+    - inversion ND as [|? ? Hn ND']; subst. cbn [map fst] in Hn.
+      destruct (Hc a t (or_introl eq_refl)) as [Ha Hg].
+      destruct (IH (cs_insert A (mk_child H A lh ver (a, t)) old) ND' (fun n' t' Hin => Hc n' t' (or_intror Hin))
+                   (ssorted_insert A _ _ S) (Forall_insert A _ _ _ (mk_child_ok f lh ver a t Ha Hg) F)) as (I1 & I2 & I3 & I4).
+      split; [exact I1|]. split; [exact I2|]. split; [pose proof (cs_insert_length A (mk_child H A lh ver (a, t)) old); lia|].
+      intro m. rewrite I4. cbn [nassoc]. destruct (a =? m) eqn:E.
+      + apply N.eqb_eq in E. subst a. rewrite (nassoc_none m new Hn). rewrite cs_find_insert.
+        change (c_nib (mk_child H A lh ver (m, t))) with m. rewrite N.eqb_refl. reflexivity.
+      + destruct (nassoc m new); [reflexivity|]. rewrite cs_find_insert.
+        change (c_nib (mk_child H A lh ver (a, t))) with a. rewrite E. reflexivity.
+  Qed.
+
+  Lemma bia_ok : forall fuel lh path ver nver t kvs U,
+    good H A fuel lh t -> ksorted A kvs -> pfree U -> kvs_ok U fuel kvs -> tree_ok U fuel t ->
+    (kvs = [] -> ~ U []) ->
+    exists r lg, bia H A fuel lh path ver nver t kvs = Ok (r, lg) /\ res_good fuel lh r /\
+      forall k, rget fuel r k = upd_spec (lookup A fuel t) kvs k.
+  Proof.
+    induction fuel as [|f IH]; intros lh path ver nver t kvs U G KS PF OK TO Hnil.
+    { (* fuel 0: only a leaf is good *)
+      destruct t as [|s vh p a|cs]; cbn [good] in G; try contradiction.
+      destruct (TO s (vh, p, a)) as (_ & _ & L); [cbn; rewrite leqb_refl; reflexivity|lia]. }
+    destruct t as [|s vh p a|cs]; [cbn [good] in G; contradiction| |].
+    - (* existing leaf *)
+      destruct (TO s (vh, p, a)) as (Us & Vs & Ls); [cbn; rewrite leqb_refl; reflexivity|].
+      destruct (buswel_ok (S f) lh path ver s vh p a kvs U KS PF OK Us Vs Ls) as (r & lg & E & R1 & R2).
+      { intros E0 Es. subst. apply (Hnil eq_refl). exact Us. }
+      cbn [bia]. rewrite E. eexists _, _. split; [reflexivity|]. split; [exact R1|].
+      intro k. rewrite R2. unfold upd_spec. rewrite lookup_leaf. reflexivity.
+    - (* internal node *)
+      apply good_internal in G. destruct G as (G1 & G2 & G3).
+      assert (NE : forall x, In x kvs -> fst x <> []).
+      { intros x Hx E0. assert (U0 : U []) by (rewrite <- E0; apply OK; exact Hx).
+        destruct (good_has_leaf (S f) lh (Internal cs)) as (k0 & d0 & E1); [apply good_internal; tauto|].
+        destruct (TO k0 d0 E1) as (Uk & _). assert (k0 = []) by (eapply pfree_nil; eassumption). subst k0.
+        rewrite lookup_internal_nil in E1. discriminate. }
+      destruct (groups_spec A kvs KS NE) as (gs & G0 & Gs1 & Gs2 & Gs3 & _).
+      cbn [bia]. rewrite G0.
+      set (oldsem := fun (n : N) => match cs_find A n cs with Some c => lookup A f (c_sub c) | None => fun _ => None end).
+      set (P := fun (n : N) (g : list kv) (r : option nodeA) =>
+                  res_good f (lh_down lh n) r /\ forall k, rget f r k = upd_spec (oldsem n) g k).
+      destruct (run_groups_ok (fun n g =>
+                   match cs_find A n cs with
+                   | Some c => bia H A f (lh_down lh n) (path ++ [n]) ver (c_ver c) (c_sub c) g
+                   | None => bus H A f (lh_down lh n) (path ++ [n]) ver g
+                   end) P gs) as (rs & lg & E & M & Q).
+      { intros n g Hin. destruct (Gs2 n g Hin) as (Gn1 & Gn2 & Gn3).
+        assert (OKg : kvs_ok (fun k => U (n :: k)) f g).
+        { intros y Hy. destruct (OK _ (Gn3 y Hy)) as (O1 & O2 & O3). cbn [fst] in *.
+          split; [exact O1|]. split; [apply (kvalid_head n); exact O2|cbn in O3; lia]. }
+        assert (Hf' : (0 < f)%nat).
+        { destruct g as [|y g']; [contradiction|]. destruct (OKg y (or_introl eq_refl)) as (_ & _ & L). lia. }
+        unfold P, oldsem. destruct (cs_find A n cs) as [c|] eqn:Ec.
+        - destruct (cs_find_some A n cs c Ec) as [Hc Enib]. rewrite Forall_forall in G2.
+          destruct (G2 c Hc) as (_ & C2 & _). rewrite Enib in C2.
+          destruct (IH (lh_down lh n) (path ++ [n]) ver (c_ver c) (c_sub c) g (fun k => U (n :: k)) C2 Gn2
+                       (pfree_down U n PF) OKg) as (r & lg & E & R1 & R2).
+          + intros k d Ek. destruct (TO (n :: k) d) as (T1 & T2 & T3); [rewrite lookup_internal, Ec; exact Ek|].
+            split; [exact T1|]. split; [apply (kvalid_head n); exact T2|cbn in T3; lia].
+          + intro E0. subst g. contradiction.
+          + exists r, lg. repeat split; assumption.
+        - destruct (bus_ok f (lh_down lh n) (path ++ [n]) ver g (fun k => U (n :: k)) Hf' Gn2 (pfree_down U n PF) OKg)
+            as (r & lg & E & R1 & R2).
+          exists r, lg. repeat split; assumption. }
+      rewrite E.
+      assert (NDg : NoDup (map fst gs)) by (apply gsorted_nodup; exact Gs1).
+      assert (NDr : NoDup (map fst rs)) by (rewrite M; exact NDg).
+      fold old_step.
+      destruct (old_spec f lh rs cs NDr G1 G2) as (O1 & O2 & O3).
+      set (old := fold_left old_step rs cs) in *.
+      assert (Hch : forall n t, In (n, t) (somes A rs) -> n < 16 /\ good H A f (lh_down lh n) t).
+      { intros n t Hin. apply somes_in in Hin. destruct (Q n (Some t) Hin) as (g & Hg & [Pg _]).
+        split; [|exact Pg]. destruct (Gs2 n g Hg) as (Gn1 & _ & Gn3).
+        destruct g as [|y g']; [contradiction|]. destruct (OK _ (Gn3 y (or_introl eq_refl))) as (_ & V & _).
+        apply kvalid_head in V. tauto. }
+      destruct (final_spec f lh ver (somes A rs) old (somes_nodup rs NDr) Hch O1 O2) as (F1 & F2 & F3 & F4).
+      set (new := somes A rs) in *.
+      set (final := fold_left (fun acc nt => cs_insert A (mk_child H A lh ver nt) acc) new old) in *.
+      (* meaning of the final children map *)
+      assert (Sem : forall m k', match cs_find A m final with Some c => lookup A f (c_sub c) k' | None => None end =
+                                 upd_spec (lookup A (S f) (Internal cs)) kvs (m :: k')).
+      { intros m k'. unfold upd_spec. rewrite Gs3, lookup_internal.
+        assert (Eo : oldsem m k' = match cs_find A m cs with Some c => lookup A f (c_sub c) k' | None => None end)
+          by (unfold oldsem; destruct (cs_find A m cs); reflexivity).
+        rewrite <- Eo. clear Eo.
+        rewrite F4. unfold new. rewrite nassoc_somes by exact NDr. rewrite O3.
+        pose proof (rs_assoc P gs rs m NDg M Q) as RA.
+        destruct (nassoc m gs) as [g|].
+        - destruct RA as (r' & Er & [_ Pr]). rewrite Er. specialize (Pr k'). unfold upd_spec in Pr.
+          destruct r' as [t'|]; cbn [rget] in Pr; exact Pr.
+        - rewrite RA. unfold oldsem. destruct (cs_find A m cs); reflexivity. }
+      assert (Sem0 : None = upd_spec (lookup A (S f) (Internal cs)) kvs []).
+      { unfold upd_spec. rewrite (kv_get_notin A [] kvs); [reflexivity|].
+        intro Hin. apply in_map_iff in Hin. destruct Hin as (x & Ex & Hx). apply (NE x Hx). exact Ex. }
+      (* the two possible shapes of the result *)
+      assert (Build : forall lgb, two_leaves A final ->
+                exists r lg0, Ok (Some (Internal final), lapp A (log_stale A nver path) (lapp A lg lgb)) = Ok (r, lg0) /\
+                  res_good (S f) lh r /\ forall k, rget (S f) r k = upd_spec (lookup A (S f) (Internal cs)) kvs k).
+      { intros lgb T. eexists _, _. split; [reflexivity|]. split.
+        - cbn [res_good]. apply good_internal. repeat split; assumption.
+        - intros [|m k']; [exact Sem0|]. cbn [rget]. rewrite lookup_internal. apply Sem. }
+      assert (Lift : forall nn t c lgb, is_leaf A t = true -> c_sub c = t ->
+                (forall m, cs_find A m final = if nn =? m then Some c else None) ->
+                exists r lg0, Ok (Some (lift A nn t), lapp A (log_stale A nver path) (lapp A lg lgb)) = Ok (r, lg0) /\
+                  res_good (S f) lh r /\ forall k, rget (S f) r k = upd_spec (lookup A (S f) (Internal cs)) kvs k).
+      { intros nn t c lgb L Ec Ff. eexists _, _. split; [reflexivity|]. split; [apply good_lift; exact L|].
+        intros [|m k'].
+        - cbn [rget]. rewrite lookup_lift_nil by exact L. exact Sem0.
+        - cbn [rget]. rewrite lookup_lift by exact L. rewrite <- Sem, Ff. destruct (nn =? m); [rewrite Ec|]; reflexivity. }
+      assert (Two : forall n1 t1 n2 t2 rest, new = (n1, t1) :: (n2, t2) :: rest -> two_leaves A final).
+      { intros n1 t1 n2 t2 rest En. pose proof (somes_nodup rs NDr) as NDn. fold new in NDn. rewrite En in NDn.
+        inversion NDn as [|? ? Hn _]; subst. cbn [map fst] in Hn.
+        eapply (two_of_finds A final n1 n2).
+        - intro E0. apply Hn. left. congruence.
+        - rewrite F4, En. cbn [nassoc]. rewrite N.eqb_refl. reflexivity.
+        - rewrite F4, En. cbn [nassoc]. destruct (n1 =? n2) eqn:E0; [apply N.eqb_eq in E0; exfalso; apply Hn; left; congruence|].
+          rewrite N.eqb_refl. reflexivity. }
+      assert (Big : (2 <= length old)%nat -> two_leaves A final).
+      { intro L. destruct final as [|c1 [|c2 r']]; cbn in F3; try lia. exact I. }
+      clearbody final.
+      destruct old as [|oc [|oc2 old']] eqn:Eold; destruct new as [|[nn nc] [|[n2 t2] new']] eqn:Enew.
+      + (* nothing left *)
+        eexists _, _. split; [reflexivity|]. split; [exact I|].
+        intros [|m k']; [exact Sem0|]. cbn [rget]. rewrite <- Sem, F4. cbn [nassoc].
+        unfold cs_find. reflexivity.
+      + destruct (is_leaf A nc) eqn:L.
+        * eapply (Lift nn nc (mk_child H A lh ver (nn, nc))); [exact L|reflexivity|].
+          intro m. rewrite F4. cbn [nassoc]. destruct (nn =? m) eqn:E0; [apply N.eqb_eq in E0; subst; reflexivity|reflexivity].
+        * apply Build. assert (Ef : cs_find A nn final = Some (mk_child H A lh ver (nn, nc))).
+          { rewrite F4. cbn [nassoc]. rewrite N.eqb_refl. reflexivity. }
+          destruct final as [|c1 [|c2 r']]; [discriminate| |exact I].
+          apply cs_find_some in Ef. destruct Ef as [[Ef|[]] _]. subst c1. cbn. exact L.
+      + apply Build. eapply Two. reflexivity.
+      + (* one old child, nothing new *)
+        assert (Ff : forall m, cs_find A m final = if c_nib oc =? m then Some oc else None).
+        { intro m. rewrite F4. cbn [nassoc]. unfold cs_find. cbn [find]. destruct (c_nib oc =? m); reflexivity. }
+        destruct (c_leaf oc) eqn:L.
+        * inversion O2 as [|? ? C _]; subst. destruct C as (_ & _ & _ & C4). rewrite L in C4.
+          eapply (Lift (c_nib oc) (c_sub oc) oc); [symmetry; exact C4|reflexivity|exact Ff].
+        * apply Build. assert (Ef : cs_find A (c_nib oc) final = Some oc) by (rewrite Ff, N.eqb_refl; reflexivity).
+          destruct final as [|c1 [|c2 r']]; [discriminate| |exact I].
+          apply cs_find_some in Ef. destruct Ef as [[Ef|[]] _]. subst c1. cbn. exact L.
+      + (* one old child, one new child *)
+        destruct ((c_nib oc =? nn) && is_leaf A nc) eqn:Cond.
+        * apply andb_true_iff in Cond. destruct Cond as [C1 L]. apply N.eqb_eq in C1.
+          eapply (Lift nn nc (mk_child H A lh ver (nn, nc))); [exact L|reflexivity|].
+          intro m. rewrite F4. cbn [nassoc]. destruct (nn =? m) eqn:E0; [apply N.eqb_eq in E0; subst; reflexivity|].
+          unfold cs_find. cbn [find]. rewrite C1, E0. reflexivity.
+        * apply Build. destruct (c_nib oc =? nn) eqn:C1.
+          -- cbn [andb] in Cond. apply N.eqb_eq in C1.
+             assert (Ef : forall m, cs_find A m final = if nn =? m then Some (mk_child H A lh ver (nn, nc)) else None).
+             { intro m. rewrite F4. cbn [nassoc]. destruct (nn =? m) eqn:E0; [apply N.eqb_eq in E0; subst; reflexivity|].
+               unfold cs_find. cbn [find]. rewrite C1, E0. reflexivity. }
+             destruct final as [|c1 [|c2 r']].
+             ++ specialize (Ef nn). rewrite N.eqb_refl in Ef. discriminate.
+             ++ pose proof (Ef nn) as Ef1. rewrite N.eqb_refl in Ef1. apply cs_find_some in Ef1.
+                destruct Ef1 as [[Ef1|[]] _]. subst c1. cbn. exact Cond.
+             ++ exact I.
+          -- apply N.eqb_neq in C1. eapply (two_of_finds A final nn (c_nib oc)).
+             ++ congruence.
+             ++ rewrite F4. cbn [nassoc]. rewrite N.eqb_refl. reflexivity.
+             ++ rewrite F4. cbn [nassoc]. destruct (nn =? c_nib oc) eqn:E0; [apply N.eqb_eq in E0; congruence|].
+                apply cs_find_head.
+      + apply Build. eapply Two. reflexivity.
+      + apply Build. apply Big. cbn. lia.
+      + apply Build. apply Big. cbn. lia.
+      + apply Build. apply Big. cbn. lia.
+  Qed.
 End UPD.
